@@ -810,6 +810,11 @@ func c16Jobs(tier string) []sym.Job {
 		}
 	}
 	rec(nil)
+	for nrefs := 0; nrefs <= 6; nrefs++ {
+		for listing := 0; listing < 2; listing++ {
+			js = append(js, job("c16", "TwoClones", fmt.Sprintf("c16/two-clones/refs%d/listing%d", nrefs, listing), int64(nrefs), int64(listing)))
+		}
+	}
 	for cp := 2; cp <= 8; cp++ {
 		for head := 0; head <= 3 && head <= cp; head++ {
 			for tail := 0; tail <= 3; tail++ {
@@ -839,7 +844,10 @@ func c13Jobs(tier string) []sym.Job {
 		js = append(js, job("c13", "Route", fmt.Sprintf("c13/route/layout%03d", toBase9(l)), int64(l)))
 	}
 	for _, l := range []int{0, 1, 4, 1 + 9*3, 2 + 9*4 + 81*5} {
-		js = append(js, job("c13", "Misaligned", fmt.Sprintf("c13/misaligned/layout%03d", toBase9(l)), int64(l)))
+		js = append(js, job("c13", "Misaligned", fmt.Sprintf("c13/misaligned/layout%03d/any-24-bit-range", toBase9(l)), int64(l), -1, -1))
+		for _, sg := range [][2]int{{9, 9}, {9, 12}, {4, 20}, {14, 15}} {
+			js = append(js, job("c13", "Misaligned", fmt.Sprintf("c13/misaligned/layout%03d/seg%d-%d", toBase9(l), sg[0], sg[1]), int64(l), int64(sg[0]), int64(sg[1])))
+		}
 	}
 	dumpLayouts := []int{0, 1, 2, 3, 4, 5, 1 + 9*4, 2 + 9*3, 4 + 9*5, 2 + 9*3 + 81*8, 5 + 9*7 + 81*6}
 	maxSeg := 3
